@@ -200,8 +200,10 @@ class Statement(object):
         positive_range = True
 
         rel_index = self.code_pkg.additional.int
+        constant = 0
         if self.operand.left.is_address_expression():
             rel_index = self.operand.left.extract_address_index_from_expression()
+            constant = self.operand.left.extract_constant_from_expression()
 
         range_count = range(this_index, rel_index)
         if rel_index < this_index:
@@ -216,40 +218,28 @@ class Statement(object):
         if positive_range:
             max_size += 2
             min_size += 2
+            lowest = min(min_size, max_size) - self.code_pkg.max_size - 2 + constant
+            highest = max(min_size, max_size) + constant
         else:
             max_size += self.code_pkg.size + 1
             min_size += self.code_pkg.size + 1
+            lowest = constant - max(min_size, max_size)
+            highest = constant - min(min_size, max_size)
 
-        if positive_range:
-            if min_size <= 127 and max_size <= 127:
-                self.code_pkg.size += 1
-                self.code_pkg.max_size = self.code_pkg.size
-                self.pcr_size_hint = 2
-                self.fixed_size = True
-                raw_post_byte |= self.code_pkg.post_byte_choices[0]
-                self.code_pkg.post_byte = NumericValue(raw_post_byte)
-            else:
-                self.code_pkg.size += 2
-                self.code_pkg.max_size = self.code_pkg.size
-                self.pcr_size_hint = 4
-                self.fixed_size = True
-                raw_post_byte |= self.code_pkg.post_byte_choices[1]
-                self.code_pkg.post_byte = NumericValue(raw_post_byte)
+        if -128 <= lowest and highest <= 127:
+            self.code_pkg.size += 1
+            self.code_pkg.max_size = self.code_pkg.size
+            self.pcr_size_hint = 2
+            self.fixed_size = True
+            raw_post_byte |= self.code_pkg.post_byte_choices[0]
+            self.code_pkg.post_byte = NumericValue(raw_post_byte)
         else:
-            if min_size <= 128 and max_size <= 128:
-                self.code_pkg.size += 1
-                self.code_pkg.max_size = self.code_pkg.size
-                self.pcr_size_hint = 2
-                self.fixed_size = True
-                raw_post_byte |= self.code_pkg.post_byte_choices[0]
-                self.code_pkg.post_byte = NumericValue(raw_post_byte)
-            else:
-                self.code_pkg.size += 2
-                self.code_pkg.max_size = self.code_pkg.size
-                self.pcr_size_hint = 4
-                self.fixed_size = True
-                raw_post_byte |= self.code_pkg.post_byte_choices[1]
-                self.code_pkg.post_byte = NumericValue(raw_post_byte)
+            self.code_pkg.size += 2
+            self.code_pkg.max_size = self.code_pkg.size
+            self.pcr_size_hint = 4
+            self.fixed_size = True
+            raw_post_byte |= self.code_pkg.post_byte_choices[1]
+            self.code_pkg.post_byte = NumericValue(raw_post_byte)
 
     def fix_addresses(self, statements, this_index):
         """
